@@ -285,8 +285,10 @@ func (e *eval) scalar(lit, kind string, rr []model.Rule, depth int, own string) 
 			// trivially true, through a type reference it pins the referring example
 			if v.Lit == "true" && lit != own {
 				a, b := model.LitVal(lit), model.LitVal(own)
-				if (a.K == "str" && b.K == "str" && a.Str == b.Str) ||
-					(a.K == "num" && b.K == "num" && dec.Parse(lit) != nil && dec.Parse(own) != nil && dec.Parse(lit).Cmp(dec.Parse(own)) == 0) {
+				if a.K == "str" && b.K == "str" && a.Str == b.Str {
+					continue // the same string under another spelling of its escapes is the same value
+				}
+				if (a.K == "num" && b.K == "num" && dec.Parse(lit) != nil && dec.Parse(own) != nil && dec.Parse(lit).Cmp(dec.Parse(own)) == 0) {
 					e.amb("const: equal value spelled differently")
 				}
 				return false, "const", fmt.Sprintf("%s is not the constant %s", lit, own)
